@@ -15,6 +15,7 @@ same way as the real class.
 """
 from __future__ import annotations
 
+import numpy as np
 import pymbolic.primitives as p
 from immutabledict import immutabledict
 
@@ -80,7 +81,8 @@ def typed(cls):
 
 
 def has_twins(*objs):
-    """Some two composite sub-objects are == (same class) yet differ in a constant's type."""
+    """Some two composite sub-objects are == (same class) yet differ in a constant's type -- or
+    two float zeros differ in their sign."""
     byeq = {}
     for o in objs:
         for s in G.walk(o):
@@ -89,4 +91,8 @@ def has_twins(*objs):
                     byeq.setdefault((type(s), s), set()).add(normal.typed_key(s))
                 except TypeError:
                     pass
+            elif isinstance(s, (float, np.floating)) and s == 0:
+                # 0.0 and -0.0: equal, of one type, and still two values (1 / x, copysign) --
+                # the same ==-keyed tables answer the second with the first
+                byeq.setdefault((type(s), 0.0), set()).add(normal.typed_key(s))
     return any(len(v) > 1 for v in byeq.values())
